@@ -48,4 +48,41 @@ def phylipSequentialWrite (abc : Option Abc) (m : Msa) : Bytes := joinLF (phylip
 def phylipWrite (sequential : Bool) (abc : Option Abc) (m : Msa) : Bytes :=
   if sequential then phylipSequentialWrite abc m else phylipInterleavedWrite abc m
 
+/-! ## the writers with format options: `esl_msafile_phylip_Write(fp, msa, format, opt_fmtd)` with
+    `opt_fmtd->namewidth` / `opt_fmtd->rpl` set (`0` = unset: `namewidth = 10`, `rpl = 60`) -/
+
+/-- `buf` for row `idx` at `apos`, `rpl` residues per line -/
+def phyBufW (rpl : Nat) (abc : Option Abc) (m : Msa) (idx apos : Nat) : Bytes :=
+  match abc with
+  | some _ => phyRectifyDigital (seqChunk abc m idx apos rpl)
+  | none => phyRectifyText (seqChunk abc m idx apos rpl)
+
+/-- `"%-*.*s %s\n"` with `namewidth` in the first block, `"%s\n"` afterwards -/
+def phyRowLineW (nw rpl : Nat) (abc : Option Abc) (m : Msa) (idx apos : Nat) : Bytes :=
+  if apos == 0 then padTrunc nw (m.names.getD idx []) ++ [32] ++ phyBufW rpl abc m idx apos
+  else phyBufW rpl abc m idx apos
+
+def phylipInterleavedWriteW (nw rpl : Nat) (abc : Option Abc) (m : Msa) : Bytes :=
+  phyWrHeader m
+  ++ (blockStarts m.alen rpl).flatMap (fun apos =>
+        [10] ++ joinLF ((List.range m.nseq).map fun idx => phyRowLineW nw rpl abc m idx apos))
+
+def phylipSequentialWriteW (nw rpl : Nat) (abc : Option Abc) (m : Msa) : Bytes :=
+  joinLF (phyWrHeader m :: (List.range m.nseq).flatMap (fun idx => (blockStarts m.alen rpl).map fun apos => phyRowLineW nw rpl abc m idx apos))
+
+/-- `esl_msafile_phylip_Write(fp, msa, format, &fmtd)` with `fmtd.namewidth = namewidth`, `fmtd.rpl = rpl` -/
+def phylipWriteW (namewidth rpl : Nat) (sequential : Bool) (abc : Option Abc) (m : Msa) : Bytes :=
+  let nw := if namewidth == 0 then phyNameWidth else namewidth
+  let r := if rpl == 0 then phyRpl else rpl
+  if sequential then phylipSequentialWriteW nw r abc m else phylipInterleavedWriteW nw r abc m
+
+/-- unset options (and the explicit defaults 10 / 60) give the writer `esl_msafile_Write` dispatches to -/
+theorem phylipWriteW_unset (sequential : Bool) (abc : Option Abc) (m : Msa) :
+    phylipWriteW 0 0 sequential abc m = phylipWrite sequential abc m := by
+  cases sequential <;> rfl
+
+theorem phylipWriteW_default (sequential : Bool) (abc : Option Abc) (m : Msa) :
+    phylipWriteW 10 60 sequential abc m = phylipWrite sequential abc m := by
+  cases sequential <;> rfl
+
 end EaselModel.Msafile
